@@ -20,6 +20,9 @@ Inductive pst := PNull | PLive | PDang.
 
 Inductive stmt :=
 | Alloc (r : res)            (* p_r = malloc(..) / fd_r = eventfd(..): one acquisition attempt *)
+| Alloc2 (r1 r2 : res)       (* pipe(fds): ONE attempt that yields two descriptors (or none) *)
+| Get (r : res)              (* accept(..): a descriptor obtained by a call that is tracked but never failed *)
+| Lbl (n : nat)              (* marks the entry of cleanup block / failure handler n (recorded, no effect) *)
 | Free (r : res)             (* free(p_r) / close(fd_r): NULL -> nothing; live -> released, p_r dangles; dangling -> double free *)
 | SetNull (r : res)          (* p_r = NULL *)
 | Mark (r : res)             (* scalar field / flag / pointer to embedded object := non-zero (no acquisition) *)
@@ -39,7 +42,8 @@ Record st := mkst {
   pv : res -> pst;           (* pointer variables *)
   retv : rc;                 (* the function's `ret` variable *)
   fin : option rc;           (* Some c once the function has returned c *)
-  bad : bool                 (* crash / double free / hang happened *)
+  bad : bool;                (* crash / double free / hang happened *)
+  trace : list nat           (* labels of the cleanup blocks entered, most recent first *)
 }.
 
 Definition upd (m : res -> pst) (r : res) (v : pst) : res -> pst :=
@@ -53,7 +57,7 @@ Definition rename (a b : res) (l : list res) : list res :=
 Definition rc_eqb (a b : rc) : bool :=
   match a, b with Ok, Ok | Fail, Fail => true | _, _ => false end.
 
-Definition set_bad (x : st) : st := mkst (cnt x) (live x) (pv x) (retv x) (fin x) true.
+Definition set_bad (x : st) : st := mkst (cnt x) (live x) (pv x) (retv x) (fin x) true (trace x).
 
 Fixpoint exec (f : nat -> bool) (s : stmt) (x : st) {struct s} : st :=
   let fix go (l : list stmt) (x : st) {struct l} : st :=
@@ -64,32 +68,38 @@ Fixpoint exec (f : nat -> bool) (s : stmt) (x : st) {struct s} : st :=
   match s with
   | Alloc r =>
       if f (cnt x)
-      then mkst (S (cnt x)) (live x) (upd (pv x) r PNull) (retv x) (fin x) (bad x)
+      then mkst (S (cnt x)) (live x) (upd (pv x) r PNull) (retv x) (fin x) (bad x) (trace x)
       else mkst (S (cnt x))
                 (r :: (match pv x r with PLive => rename r (lost r) (live x) | _ => live x end))
-                (upd (pv x) r PLive) (retv x) (fin x) (bad x)
+                (upd (pv x) r PLive) (retv x) (fin x) (bad x) (trace x)
+  | Alloc2 r1 r2 =>
+      if f (cnt x)
+      then mkst (S (cnt x)) (live x) (upd (upd (pv x) r1 PNull) r2 PNull) (retv x) (fin x) (bad x) (trace x)
+      else mkst (S (cnt x)) (r1 :: r2 :: live x) (upd (upd (pv x) r1 PLive) r2 PLive) (retv x) (fin x) (bad x) (trace x)
+  | Get r => mkst (cnt x) (r :: live x) (upd (pv x) r PLive) (retv x) (fin x) (bad x) (trace x)
+  | Lbl n => mkst (cnt x) (live x) (pv x) (retv x) (fin x) (bad x) (n :: trace x)
   | Free r =>
       match pv x r with
       | PNull => x
-      | PLive => mkst (cnt x) (remove Nat.eq_dec r (live x)) (upd (pv x) r PDang) (retv x) (fin x) (bad x)
+      | PLive => mkst (cnt x) (remove Nat.eq_dec r (live x)) (upd (pv x) r PDang) (retv x) (fin x) (bad x) (trace x)
       | PDang => set_bad x
       end
-  | SetNull r => mkst (cnt x) (live x) (upd (pv x) r PNull) (retv x) (fin x) (bad x)
-  | Mark r => mkst (cnt x) (live x) (upd (pv x) r PDang) (retv x) (fin x) (bad x)
+  | SetNull r => mkst (cnt x) (live x) (upd (pv x) r PNull) (retv x) (fin x) (bad x) (trace x)
+  | Mark r => mkst (cnt x) (live x) (upd (pv x) r PDang) (retv x) (fin x) (bad x) (trace x)
   | Use r => match pv x r with PLive => x | _ => set_bad x end
   | Move d s0 =>
       let l1 := match pv x d with PLive => rename d (lost d) (live x) | _ => live x end in
-      mkst (cnt x) (rename s0 d l1) (upd (upd (pv x) d (pv x s0)) s0 PNull) (retv x) (fin x) (bad x)
+      mkst (cnt x) (rename s0 d l1) (upd (upd (pv x) d (pv x s0)) s0 PNull) (retv x) (fin x) (bad x) (trace x)
   | Stuck => set_bad x
-  | SetRet c => mkst (cnt x) (live x) (pv x) c (fin x) (bad x)
+  | SetRet c => mkst (cnt x) (live x) (pv x) c (fin x) (bad x) (trace x)
   | Ret o => mkst (cnt x) (live x) (pv x) (retv x)
-                  (Some (match o with Some c => c | None => retv x end)) (bad x)
+                  (Some (match o with Some c => c | None => retv x end)) (bad x) (trace x)
   | IfNull rs b => if existsb (fun r => is_null (pv x r)) rs then go b x else x
   | IfSet r b => if is_null (pv x r) then x else go b x
   | Call c asg onf =>
-      let y := go c (mkst (cnt x) (live x) (pv x) Ok None (bad x)) in
+      let y := go c (mkst (cnt x) (live x) (pv x) Ok None (bad x) (trace x)) in
       let crc := match fin y with Some c0 => c0 | None => Ok end in
-      let z := mkst (cnt y) (live y) (pv y) (if asg then crc else retv x) (fin x) (bad y) in
+      let z := mkst (cnt y) (live y) (pv y) (if asg then crc else retv x) (fin x) (bad y) (trace y) in
       match crc with Fail => go onf z | Ok => z end
   end.
 
@@ -99,6 +109,19 @@ Fixpoint exec_list (f : nat -> bool) (l : list stmt) (x : st) : st :=
   | s :: t => if stopped x then x else exec_list f t (exec f s x)
   end.
 
+(* the labels occurring syntactically in a program *)
+Fixpoint labels_of (s : stmt) : list nat :=
+  let fix go (l : list stmt) : list nat :=
+    match l with [] => [] | s0 :: t => labels_of s0 ++ go t end in
+  match s with
+  | Lbl n => [n]
+  | IfNull _ b => go b
+  | IfSet _ b => go b
+  | Call c _ o => go c ++ go o
+  | _ => []
+  end.
+Definition labels_of_list (l : list stmt) : list nat := flat_map labels_of l.
+
 (* [Mark] uses PDang as "non-null, not a heap block of ours": IfSet runs, Free
    or Use of it would be flagged. *)
 
@@ -106,7 +129,7 @@ Definition no_fault : nat -> bool := fun _ => false.
 Definition single (k : nat) : nat -> bool := fun i => Nat.eqb i k.
 Definition of_prefix (p : list bool) : nat -> bool := fun i => nth i p false.
 
-Definition init_st : st := mkst 0 [] (fun _ => PNull) Ok None false.
+Definition init_st : st := mkst 0 [] (fun _ => PNull) Ok None false [].
 
 (* One scenario = object pre-built without faults, the operation under the
    fault oracle, then the destroy function. *)
@@ -127,19 +150,20 @@ Record outcome := mkout {
   o_bad : bool;              (* the operation crashed / hung / double-freed *)
   o_base : list res;         (* live before the operation *)
   o_dlive : list res;        (* live after the following destroy *)
-  o_dbad : bool              (* destroy crashed / double-freed *)
+  o_dbad : bool;             (* destroy crashed / double-freed *)
+  o_labels : list nat        (* cleanup blocks entered by the operation, in order *)
 }.
 
-Definition restart (x : st) : st := mkst 0 (live x) (pv x) Ok None (bad x).
+Definition restart (x : st) : st := mkst 0 (live x) (pv x) Ok None (bad x) [].
 
 Definition run_scn (sc : scn) (f : nat -> bool) : outcome :=
   let x0 := restart (exec_list no_fault (s_pre sc) init_st) in
   let x1 := exec_list f (s_op sc) x0 in
   let rc1 := match fin x1 with Some c => c | None => Ok end in
   let x2 := if (match rc1 with Ok => true | Fail => s_dfail sc end)
-            then exec_list no_fault (s_destroy sc) (mkst (cnt x1) (live x1) (pv x1) Ok None (bad x1))
+            then exec_list no_fault (s_destroy sc) (mkst (cnt x1) (live x1) (pv x1) Ok None (bad x1) [])
             else x1 in
-  mkout rc1 (cnt x1) (live x1) (bad x1) (live x0) (live x2) (bad x2).
+  mkout rc1 (cnt x1) (live x1) (bad x1) (live x0) (live x2) (bad x2) (rev (trace x1)).
 
 (* ---------- decision-tree exploration of ALL fault functions ---------- *)
 
@@ -194,7 +218,8 @@ Fixpoint list_eqb (a b : list res) : bool :=
 Definition out_eqb (a b : outcome) : bool :=
   rc_eqb (o_rc a) (o_rc b) && Nat.eqb (o_att a) (o_att b) && list_eqb (o_live a) (o_live b)
   && Bool.eqb (o_bad a) (o_bad b) && list_eqb (o_base a) (o_base b)
-  && list_eqb (o_dlive a) (o_dlive b) && Bool.eqb (o_dbad a) (o_dbad b).
+  && list_eqb (o_dlive a) (o_dlive b) && Bool.eqb (o_dbad a) (o_dbad b)
+  && list_eqb (o_labels a) (o_labels b).
 
 (* behaviour under the leaf's oracle equals behaviour under its first hit alone *)
 Definition reduces (sc : scn) (q : list bool) : bool :=
